@@ -99,6 +99,69 @@ def judge(snap, recovered, stderr):
                     last[w] = s
     return True
 
+def decode_strs(p, i, n):
+    out = []
+    for _ in range(n):
+        k = int.from_bytes(p[i:i + 4], 'little'); out.append(p[i + 4:i + 4 + k]); i += 4 + k
+    return out, i
+
+def metadata_of(recovered):
+    """(initial clock sync fields, {site: source fields}) read back from a recovered log"""
+    cs0, srcs, i = None, {}, 0
+    while i + 4 <= len(recovered):
+        n = int.from_bytes(recovered[i:i + 4], 'little'); p = recovered[i + 4:i + 4 + n]; i += 4 + n
+        if len(p) < 8: continue
+        tag = int.from_bytes(p[:8], 'little')
+        if tag == TAG_CS and cs0 is None:
+            (name,), _ = decode_strs(p, 36, 1)
+            cs0 = (int.from_bytes(p[8:16], 'little'), int.from_bytes(p[16:24], 'little'), int.from_bytes(p[24:32], 'little'), int.from_bytes(p[32:36], 'little'), name)
+        elif tag == TAG_SRC:
+            sev = int.from_bytes(p[16:18], 'little'); (cat, fn, fl), j = decode_strs(p, 18, 3)
+            line = int.from_bytes(p[j:j + 8], 'little'); (fmt, tags), _ = decode_strs(p, j + 8, 2)
+            if cat.startswith(b'cat'): srcs[int(cat[3:])] = (sev, cat, fn, fl, line, fmt, tags)
+    return cs0, srcs
+
+def model_ops(ops, srcs):
+    """the scenario prefix in the vocabulary of the session model (None if it has an action inside a consume, or a source not read back)"""
+    out, writers, seq, clock, syncs = [], set(), collections.Counter(), 100, 0
+    for op in ops:
+        k, f = op[:2], op[2:].split(':')
+        if k == 'nw': writers.add(f[0]); out.append('nw:%s:%s:%s:%s' % (f[0], f[1], f[2], f[3] if len(f) > 3 else ''))
+        elif k == 'lg':
+            if f[0] not in writers: continue
+            site = int(f[1]) % 6
+            if site not in srcs: return None
+            seq[f[0]] += 1; sq = seq[f[0]]; clock += 1
+            payload = bytearray([ord('a') + sq % 26]) * max(int(f[2]), 8)
+            payload[0:4] = int(f[0]).to_bytes(4, 'little'); payload[4:8] = sq.to_bytes(4, 'little')
+            args = len(payload).to_bytes(4, 'little') + bytes(payload)
+            sev, cat, fn, fl, line, fmt, tags = srcs[site]
+            out.append('lgs:%s:99:%d:%d:%s:%s:%s:%d:%s:%s:%d:%s' % (f[0], site, sev, cat.hex(), fn.hex(), fl.hex(), line, fmt.hex(), tags.hex(), clock, args.hex()))
+        elif k == 'cl': writers.discard(f[0]); out.append('cl:' + f[0])
+        elif k == 'nm':
+            if f[0] in writers: out.append('nm:%s:%s' % (f[0], f[1] if len(f) > 1 else ''))
+        elif k == 'cs': syncs += 1; out.append('cs:%d:1000000000:%d:0:%s' % (syncs, 1000 + syncs, ('Z%d' % syncs).encode().hex()))
+        elif k == 'rc': out.append('rc')
+        elif k == 'co': out.append('co:')
+        else: return None
+    return out
+
+def state_tie(ops, snap, recovered, stderr):
+    """between two operations: the blocks the real tool recovered from the real memory vs the state of the session model after the same
+    operations (the state C08_session_state_recovered speaks about). Returns None (not applicable), True, or (model, impl) texts"""
+    if snap['after'] < 0: return None
+    cs0, srcs = metadata_of(recovered)
+    if cs0 is None: return None
+    mops = model_ops(ops[:snap['after']], srcs)
+    if mops is None: return None
+    mo, merr, mrc = run_lines(MODELDRV, ['sessstate %d:%d:%d:%d:%s %s' % (cs0[0], cs0[1], cs0[2], cs0[3], cs0[4].hex(), ' '.join(mops))], 60)
+    if not mo or mrc != 0: return ('model driver failed: %s' % (merr or '')[-300:], '')
+    t = [('' if x == '-' else x) for x in mo[0].split(' ')]
+    model = sorted([('Metadata', x) for x in t[:2] if x] + [('Data', x) for x in t[2:] if x])
+    impl = sorted((m.group(2), recovered[int(m.group(3)):int(m.group(3)) + int(m.group(1))].hex())
+                  for m in re.finditer(r'Write (\d+) bytes of recovered (\w+) to output at offset (\d+)', stderr) if int(m.group(1)) > 0)
+    return True if model == impl else (str(model)[:900], str(impl)[:900])
+
 def run(ctx):
     rng = ctx.rng; stats = collections.Counter(); violations = []; broken = []; bad = []; mism = []; nontriv = set(); n_img = 0
     work = tempfile.mkdtemp(prefix='c08_', dir=WORK)
@@ -120,6 +183,8 @@ def run(ctx):
             if m.group(2) != 'ok': stats['scenario_discarded_' + m.group(2)] += 1; continue
             total = int(m.group(1)); stats['scenarios'] += 1; stats['points_total'] += total
             pts = sorted(set(rng.randrange(1, total + 1) for _ in range(per)))
+            mb = re.search(r'boundaries((?: \d+)*)', r.stdout); bnd = [int(x) for x in mb.group(1).split()] if mb else []
+            pts = sorted(set(pts) | set(rng.sample(bnd, min(len(bnd), max(2, per // 3)))))
             r = subprocess.run([drv, pre, ','.join(map(str, pts))] + ops, stdout=subprocess.PIPE, stderr=subprocess.PIPE, universal_newlines=True, timeout=300)
             snaps = []
             for l in r.stdout.split('\n'):
@@ -128,7 +193,7 @@ def run(ctx):
                 f = dict(x.split('=', 1) for x in t[3:])
                 comp = [tuple(map(int, c.split('.'))) for c in f['completed'].split(',')] if f['completed'] != '-' else []
                 infl = tuple(map(int, f['inflight'].split('.'))) if f['inflight'] != '-' else None
-                snaps.append({'point': int(t[1]), 'file': t[2], 'completed': comp, 'inflight': infl, 'out': bytes.fromhex(f['out']) if f['out'] != '-' else b''})
+                snaps.append({'point': int(t[1]), 'file': t[2], 'completed': comp, 'inflight': infl, 'out': bytes.fromhex(f['out']) if f['out'] != '-' else b'', 'after': int(f.get('after', '-1'))})
             images = [open(s['file'], 'rb').read() for s in snaps]
             for s in snaps: os.remove(s['file'])
             outs = run_brecovery(exe, work, images, timeout=120)
@@ -146,6 +211,10 @@ def run(ctx):
                 if any(e[0] == 'ev' for e in (parse_log(out) or [])): nontriv.add(case_hash(case))
                 stats['images_mid_log' if s['inflight'] else 'images_between_logs'] += 1
                 if (mline or '-') != (out.hex() or '-') and not (mline == '' and out == b''): mism.append((case, mline[:600], out.hex()[:600]))
+                tie = state_tie(ops, s, out, err)
+                if tie is not None:
+                    stats['state_tie_images'] += 1
+                    if tie is not True: mism.append((case + ' [session state]', tie[0], tie[1]))
         violations += report_smallest(ctx.pid, 'prop', bad, 'a completed event is not recoverable / not printable from the memory image, or the recovered log holds something never committed')
         res = {'evaluations': n_img, 'distinct': len(nontriv), 'samples': samples, 'stats': dict(stats), 'validated': n_img - len(mism), 'violations': violations, 'broken_what': broken}
         if mism:
